@@ -338,7 +338,10 @@ class League:
         if positional and has_mu:
             # the same call written positionally: rating(mu), rating(mu, sigma), rating(mu, sigma, name)
             args = [mu] + ([sigma] if has_sigma else [])
-            if has_sigma and "name" in kw:
+            if has_sigma and len(name) % 3 == 0:
+                # mu positional, sigma and name by keyword
+                p = self.factory.rating(mu, sigma=sigma, **({"name": kw["name"]} if "name" in kw else {}))
+            elif has_sigma and "name" in kw:
                 args.append(kw["name"])
                 p = self.factory.rating(*args)
             else:
@@ -506,7 +509,7 @@ def encode_outcome(rng, place):
 ODD_NAMES = [
     "Zoe\u0308", "A\u030angstro\u0308m", "\u212b", "\u1100\u1161\u11a8", "\ufb01nal", "  padded  ", "O'Brien; DROP TABLE", "x" * 300,
     "\u00e9clair", "\U0001f3b2 dice", "tab\tname", "0", "None", "\u0130stanbul", "stra\u00dfe", "\u01c4",
-    "lone\ud800surrogate", "nul\x00byte", "\u200bzero width", "\u202eright-to-left",
+    "lone\ud800surrogate", "nul\x00byte", "\u200bzero width", "\u202eright-to-left", "   ", "\n",
 ]
 
 
